@@ -364,6 +364,12 @@ func (x *Interp) execStmt(fr *frame, st *Stmt) {
 			t.Skip("skip", st.Site)
 		}
 	case "cleanup":
+		if st.Kind == "nil" {
+			// a nil func value (an optional release function that is not set): there is nothing to run for it; whatever
+			// the library makes of it, the cleanups registered before and after it are owed their run (C10 only)
+			t.Cleanup(nil)
+			return
+		}
 		x.mu.Lock()
 		x.nextID++
 		id := x.nextID
